@@ -588,6 +588,10 @@ func lxReplay(raw json.RawMessage) Verdict {
 			sig := "accepts-malformed-filter"
 			if c.F.Syn {
 				sig = "accepts-semantically-invalid-filter"
+			} else if cls := lxMustRejectClass(q, true); cls == "" {
+				// outside the documented grammar, but in none of the classes the property says are
+				// ALWAYS rejected: the parser may accept more than the documentation promises
+				return Verdict{OK: true, Detail: "skipped: accepted outside the documented grammar (no always-rejected class)"}
 			}
 			return fail(sig, "NewFilter(%q) succeeded but the expression must be rejected", q)
 		}
@@ -641,6 +645,8 @@ func lxReplay(raw json.RawMessage) Verdict {
 			sig := "accepts-malformed-projection"
 			if c.P.Syn {
 				sig = "accepts-semantically-invalid-projection"
+			} else if cls := lxMustRejectClass(q, false); cls == "" {
+				return Verdict{OK: true, Detail: "skipped: accepted outside the documented grammar (no always-rejected class)"}
 			}
 			return fail(sig, "ProjectionParser.Parse(%q) succeeded but the expression must be rejected", q)
 		}
@@ -928,4 +934,72 @@ func lxRecord(out string, n int) error {
 	}
 	fmt.Fprintf(os.Stderr, "lexer record: %d events\n", ew.n)
 	return nil
+}
+
+// lxMustRejectClass names the class of always-rejected texts (property C07: unbalanced
+// parentheses, an unterminated quoted word or regexp, a term lacking ':' or a value, an empty fixed
+// list, an unknown sort order) that q belongs to, or "" if it is recognisably in none.  The
+// detectors are deliberately conservative: where quoting or regexps make the lexical structure
+// position-dependent they only answer for texts whose structure is unambiguous.
+func lxMustRejectClass(q string, filter bool) string {
+	hasQuote := strings.ContainsAny(q, "\"\\")
+	hasSlash := strings.Contains(q, "/")
+	// unterminated quoted word: an odd number of quotes with no escapes around
+	if !strings.Contains(q, "\\") && !hasSlash && strings.Count(q, "\"")%2 == 1 {
+		return "unterminated-quote"
+	}
+	if filter && !hasQuote && strings.Count(q, "/") == 1 && strings.Contains(q, ":/") {
+		return "unterminated-regexp"
+	}
+	if hasQuote || hasSlash {
+		return ""
+	}
+	// parentheses are syntactic here
+	depth := 0
+	for _, r := range q {
+		switch r {
+		case '(':
+			depth++
+		case ')':
+			depth--
+			if depth < 0 {
+				return "unbalanced-parentheses"
+			}
+		}
+	}
+	if depth != 0 {
+		return "unbalanced-parentheses"
+	}
+	if !filter {
+		if m := regexp.MustCompile(`@\(\s*\)`).FindString(q); m != "" {
+			return "empty-fixed-list"
+		}
+		for _, m := range regexp.MustCompile(`@([^\s(),@:]+)`).FindAllStringSubmatch(q, -1) {
+			if m[1] != "alpha" && m[1] != "num" && m[1] != "first" {
+				return "unknown-sort-order"
+			}
+		}
+		return ""
+	}
+	// filter without quotes, slashes: terms are blank-separated outside value lists
+	if strings.ContainsAny(q, "()@,") {
+		return ""
+	}
+	for _, w := range strings.Fields(q) {
+		if w == "AND" || w == "OR" || w == "*" {
+			continue
+		}
+		w = strings.TrimLeft(w, "-")
+		if w == "" || w == "*" {
+			continue
+		}
+		i := strings.Index(w, ":")
+		if i < 0 {
+			return "term-lacking-colon"
+		}
+		if i == len(w)-1 {
+			return "term-lacking-value"
+		}
+	}
+	return ""
 }
